@@ -189,7 +189,14 @@ def build_if(rng, env):
     a2.add_effect(m, n)
     a2.add_effect(n, m)
     a3 = up.model.InstantaneousAction("gate", _env=env, x=T)
-    a3.add_precondition(f_bool(n, m))                                   # interpreted function in a precondition
+    shape = rng.random()
+    if shape < 0.45:
+        a3.add_precondition(f_bool(n, m))                               # interpreted function in a precondition
+    elif shape < 0.8:
+        # two applications in ONE condition: after a failed first candidate the planner knows one value and not the other
+        a3.add_precondition(em.Equals(em.Plus(f_int(n, 0), f_int(m, 1)), rng.randint(2, 6)))
+    else:
+        a3.add_precondition(em.And(f_bool(n, m), em.LE(f_int(m, n), rng.randint(1, 3))))
     a3.add_effect(p(a3.x), True)
     a4 = up.model.InstantaneousAction("calc", _env=env)
     if rng.random() < 0.6:
@@ -208,6 +215,48 @@ def build_if(rng, env):
     else:
         pr.add_goal(q() if any(e.fluent.fluent().name == "q" for e in a4.effects) else em.Equals(m, rng.randint(0, 4)))
         pr.add_goal(p(objs[1]))
+    return pr
+
+
+def build_if_pair(rng, env):
+    """crafted family: ONE condition / effect value / effect condition holds two applications of an interpreted function; the first
+    candidate plan fails and teaches the planner one of the two values needed later, so a later state has one known and one
+    unknown application"""
+    tm, em = env.type_manager, env.expression_manager
+    pr = up.model.Problem("ifpair", env)
+    x = up.model.Fluent("x", tm.IntType(0, 5), environment=env)
+    y = up.model.Fluent("y", tm.IntType(0, 5), environment=env)
+    r = up.model.Fluent("r", tm.IntType(0, 20), environment=env)
+    done = up.model.Fluent("done", tm.BoolType(), environment=env)
+    x0, y0 = rng.randint(0, 1), rng.randint(0, 5)
+    pr.add_fluent(x, default_initial_value=x0)
+    pr.add_fluent(y, default_initial_value=y0)
+    pr.add_fluent(r, default_initial_value=0)
+    pr.add_fluent(done, default_initial_value=False)
+    table = [rng.randint(0, 9) for _ in range(6)]
+    f = InterpretedFunction("f", tm.IntType(0, 9), OrderedDictI({"a": tm.IntType(0, 5)}), lambda a, table=table: table[a], env)
+    xt = rng.randint(x0 + 1, min(5, x0 + 3))
+    if table[xt] == table[x0]:
+        table[xt] = (table[xt] + 1) % 10
+    k = table[xt] + table[y0]
+    inc = up.model.InstantaneousAction("inc_x", _env=env)
+    inc.add_precondition(em.LT(x, 5))
+    inc.add_increase_effect(x, 1)
+    chk = up.model.InstantaneousAction("check", _env=env)
+    both = em.Plus(f(x), f(y))
+    shape = rng.randint(0, 2)
+    if shape == 0:
+        chk.add_precondition(em.Equals(both, k))
+        chk.add_effect(done, True)
+    elif shape == 1:
+        chk.add_effect(r, both)
+        chk.add_effect(done, em.TRUE(), em.Equals(r, k))        # second application of check reads r
+        pr.add_goal(em.Equals(r, k))
+    else:
+        chk.add_effect(done, True, em.Equals(both, k))
+    pr.add_action(inc)
+    pr.add_action(chk)
+    pr.add_goal(done)
     return pr
 
 
@@ -257,16 +306,35 @@ def build_os(rng, env):
     return pr, goals
 
 
-def scenario(seed, failures, stats):
+def _if_cond_tag(pr):
+    """classifies the one listed incompleteness: a conditional effect whose condition reads a fluent that another effect writes
+    with a value containing an interpreted function (the remover relaxes preconditions and goals for not-yet-known fluents, never
+    effect conditions)"""
+    from unified_planning.model.walkers import InterpretedFunctionsExtractor
+    fve = pr.environment.free_vars_extractor
+    ife = InterpretedFunctionsExtractor()
+    written = set()
+    for a in pr.actions:
+        for e in a.effects:
+            if ife.get(e.value):
+                written.add(e.fluent.fluent())
+    for a in pr.actions:
+        for e in a.effects:
+            if e.is_conditional() and any(x.fluent() in written for x in fve.get(e.condition)):
+                return " [an effect condition reads a fluent written by an effect whose value contains an interpreted function]"
+    return ""
+
+
+def scenario(seed, failures, stats, pair=False):
     rng = random.Random(seed)
-    label = {"seed": seed}
+    label = {"seed": seed, "family": "pair" if pair else "generated"}
 
     def bad(what, observed=None):
         if what not in {f["what"] for f in failures}:
             failures.append({"what": what, "concrete": label, "observed": observed})
     # ---------------- interpreted functions planner
     env = fresh_env()
-    pr = build_if(rng, env)
+    pr = build_if_pair(rng, env) if pair else build_if(rng, env)
     try:
         seen, rep = ref_reachable(pr)
     except seqsem.Ambiguous:
@@ -289,9 +357,11 @@ def scenario(seed, failures, stats):
             if res.status in POSITIVE_OUTCOMES and res.plan is None:
                 bad("interpreted-functions planner reports success without a plan")
             if solvable and res.status not in POSITIVE_OUTCOMES:
-                bad("interpreted-functions planner finds no plan for a solvable problem", f"status {res.status.name}")
+                bad("interpreted-functions planner finds no plan for a solvable problem" + _if_cond_tag(pr), f"status {res.status.name}")
             if not solvable and res.status in POSITIVE_OUTCOMES and res.plan is not None:
                 pass   # covered by the validity clause
+    if pair:
+        return
     # ---------------- oversubscription planner
     env = fresh_env()
     pr, goals = build_os(rng, env)
@@ -335,6 +405,7 @@ def bounded(tier, seed):
         warnings.simplefilter("ignore")
         for i in range(n):
             scenario(seed * 100003 + i, failures, stats)
+            scenario(seed * 100003 + 70000 + i, failures, stats, pair=True)
             if len(failures) >= 8:
                 break
     return {"evaluations": stats["n"], "distinct_nontrivial": len(stats["distinct"]), "failures": failures[:8],
@@ -348,7 +419,7 @@ def replay_file(data):
     failures, stats = [], {"n": 0, "distinct": set()}
     with warnings.catch_warnings():
         warnings.simplefilter("ignore")
-        scenario(c.get("seed", 0), failures, stats)
+        scenario(c.get("seed", 0), failures, stats, pair=c.get("family") == "pair")
     return {"reproduced": bool(failures), "concrete": c, "observed": [f["what"] for f in failures][:4]}
 
 
